@@ -5,6 +5,7 @@ the outcome of construction + solve is the same for the three routes.  dtype / H
 is observed by the harness (fresh processes, both construction orders).
 -/
 import MdpaxV.Model.Config
+import MdpaxV.Theory.GenTie
 import Mathlib.Tactic.Linarith
 import Mathlib.Tactic.Tauto
 import Mathlib.Tactic.IntervalCases
@@ -250,5 +251,14 @@ theorem setVerbosity_ok (l : List Char ⊕ Int) (v : Int) (n : List Char) (h : s
 example : setVerbosity (.inl ['t','r','A','c','e']) = .ok (4, levelName 4) := by decide
 example : setVerbosity (.inl ['v','e','r','b','o','s','e']) = .error .valueError := by decide
 example : setVerbosity (.inr 5) = .error .valueError := by decide
+
+/-- **tie by translation**: `get_convergence_format` *as written in /repo's source* (translated on every run) computes the
+    model's `decimalPlaces`, so `decimalPlaces_valid` is a statement about the code: the precision of the progress format is a
+    valid one (0 ≤ d ≤ max_decimals) for every positive threshold of any magnitude -/
+theorem format_code_eq_model (e : Int) (m : Nat) : Gen.decimalPlaces e (m : Int) = decimalPlaces e m :=
+  GenTie.decimalPlaces_eq_model e m
+
+theorem format_code_valid (e : Int) (m : Nat) : 0 ≤ Gen.decimalPlaces e (m : Int) ∧ Gen.decimalPlaces e (m : Int) ≤ (m : Int) := by
+  rw [format_code_eq_model]; exact decimalPlaces_valid e m
 
 end MdpaxV.C20
